@@ -42,7 +42,52 @@ REG_RULE = ("case = one registry (prefix / common labels incl. invalid ones) + 2
             "pulling gauge, counter/gauge vectors with 0-4 children, custom multi-descriptor collectors; names, help texts, const labels drawn from small "
             "overlapping pools) + 4-16 register/unregister/redefine/gather calls; non-trivial = at least two successful and one refused registration; distinct by request text")
 
+CONC_TB = ["sequentially consistent interleaving of the atomic / lock operations (one library thread runs at a time under the scheduler); the Rust memory model beyond that is outside: "
+           "the orderings are compared literally with the model's, a weaker ordering breaks the correspondence but no SC schedule can exhibit a stale read",
+           "the cfg(prometheus_verif) sync shim and the scheduler (harness/src/sched.rs) decide what 'the same schedule' means"]
+
 PROPS = {
+    "C01": dict(
+        module="Prom.Props.C01",
+        areas=[dict(area="catomc", quick=1500, thorough=80000, classes=["not-linearizable", "stuck", "harness-panic"]),
+               dict(area="cvec", quick=800, thorough=40000, classes=["update-lost", "not-linearizable", "stuck", "harness-panic"])],
+        rule="case = 2-3 real threads x 1-3 calls (inc, inc_by, get, reset, local flush) on one shared Counter / IntCounter, or get-or-create + inc on IntCounterVec children, run under the deterministic scheduler "
+             "(random schedules with stickiness 0/50/85 %, up to 12 spurious compare-exchange failures); the observed trace of atomic operations is replayed by the Lean machine; "
+             "non-trivial = two calls of different threads overlap in real time; distinct by (program, schedule seed)",
+        trusted=CONC_TB + ["float amounts are small integers (exact sums)"],
+    ),
+    "C11": dict(
+        module="Prom.Props.C11",
+        areas=[dict(area="catomg", quick=1500, thorough=80000, classes=["not-linearizable", "stuck", "harness-panic"])],
+        rule="case = 2-3 real threads x 1-3 calls (set, inc, dec, add, sub, get; integer gauges also near i64::MAX/MIN) on one shared Gauge / IntGauge under the deterministic scheduler; trace replayed by the Lean machine; "
+             "non-trivial = two calls of different threads overlap; distinct by (program, schedule seed)",
+        trusted=CONC_TB + ["float amounts are small integers (exact sums); sub(x) undoes add(x) for f64 only up to rounding in general"],
+    ),
+    "C10": dict(
+        module="Prom.Props.C10",
+        areas=[dict(area="cvec", quick=1500, thorough=80000),
+               dict(area="vec", quick=600, thorough=20000, classes=["child-identity", "remove-result", "collect-mismatch", "error-kind", "wrong-shape-accepted", "wellformed-request-refused", "harness-panic"])],
+        rule="case = 2-3 real threads x 1-3 calls (with_label_values + inc, remove, reset, collect) on two overlapping keys of one IntCounterVec under the deterministic scheduler; trace (lock sections, child updates) replayed by the Lean machine; "
+             "plus sequential histories of the `vec` area; non-trivial = two calls of different threads overlap; distinct by (program, schedule seed)",
+        trusted=CONC_TB + ["handle identity is established after the run by bumping every returned handle by a distinct power of two"],
+    ),
+    "C02": dict(
+        module="Prom.Props.C02",
+        areas=[dict(area="chist", quick=1500, thorough=80000, classes=["snapshot-not-a-cut", "collect-stuck", "harness-panic"])],
+        rule="case = 2-4 real threads (observers, local-histogram batch flushers, 1-3 collectors incl. get_sample_count / get_sample_sum) x 1-3 calls on one Histogram with 1-3 buckets under the deterministic scheduler "
+             "(up to 1 spurious compare-exchange failure); the trace of every atomic / lock operation is replayed by the Lean machine; oracle: each returned snapshot = stats of the observations whose claim precedes that collector's flip in the trace; "
+             "non-trivial = at least one collect and one observation/flush in the program; distinct by (program, schedule seed)",
+        trusted=CONC_TB + ["the proof model Prom/HP (inductive Step relation) and the executable replay machine Model/Conc.hStep are two hand-written presentations of the same steps (HP abstracts the float sum loop into one exact addition)",
+                           "float amounts are small integers (exact sums)"],
+    ),
+    "C03": dict(
+        module="Prom.Props.C03",
+        areas=[dict(area="chist", quick=1500, thorough=80000, classes=["observations-not-conserved", "snapshot-not-a-cut", "collect-stuck", "harness-panic"]),
+               dict(area="hist", quick=500, thorough=20000)],
+        rule="as C02, with histories of up to 3 collections per collector thread and several collector threads; after all threads finished a further collect must return exactly all observations and get_sample_count / get_sample_sum must agree; "
+             "a run that does not finish (a collect waiting forever) is a failure; plus sequential observe/flush/collect histories of the `hist` area",
+        trusted=CONC_TB + ["as C02"],
+    ),
     "C17": dict(
         module="Prom.Props.C17",
         areas=[dict(area="fall", quick=4000, thorough=150000)],
